@@ -34,7 +34,7 @@ class C11(Prop):
     ASSUMPTIONS = ["is_unique is taken to mean: valid and the last instance on the path occurs exactly "
                    "once below the top (reconstructed from the HRef documentation and code)",
                    "patterns are not used here (C13 decides filters)"]
-    N = {"quick": 1600, "thorough": 20000}
+    N = {"quick": 4800, "thorough": 60000}
     CASE_TIMEOUT_S = 60
 
     def cfg(self, tier):
